@@ -17,6 +17,7 @@ Definition rdphase (pc : pcl) : bool := match pc with KC | R11 | R12 | VK | V4 =
 Definition valof (c : cfg) (A : agent) : option N :=
   match a_pc A with
   | R12 => if is_bcast c then Some (r_tmp (a_r A)) else r_val (a_r A)
+  | V4 => r_val (a_r A)
   | _ => Some (r_tmp (a_r A))
   end.
 
